@@ -15,6 +15,11 @@ diffs = sorted(glob.glob(os.path.join(HERE, "selftest", "neutral_diffs", "*.diff
 files_of = {d: set(re.findall(r"^\+\+\+ b/(\S+)", open(d).read(), re.M)) for d in diffs}
 
 
+def apply_seed(sc, seed):
+    r = subprocess.run(["patch", "-p1", "-s", "-F0", "-d", sc, "-i", seed["patch"]], stdout=subprocess.PIPE, stderr=subprocess.STDOUT, text=True)
+    return None if r.returncode == 0 else "patch"
+
+
 def one(job):
     seed, d = job
     sc = selftest.make_scratch()
@@ -22,7 +27,7 @@ def one(job):
         r = subprocess.run(["patch", "-p1", "-s", "-d", sc, "-i", d], stdout=subprocess.PIPE, stderr=subprocess.STDOUT, text=True)
         if r.returncode != 0:
             return seed["id"], d, "neutral-does-not-apply", []
-        why = selftest.apply_edits(sc, seed["edits"])
+        why = apply_seed(sc, seed) if "patch" in seed else selftest.apply_edits(sc, seed["edits"])
         if why:
             return seed["id"], d, "seed-does-not-apply", []
         rc, keys, err = selftest.run_check(seed["property"], sc)
@@ -31,6 +36,19 @@ def one(job):
         return seed["id"], d, "fires" if rc == 1 else "SILENT", keys[:3]
     finally:
         shutil.rmtree(sc, ignore_errors=True)
+
+
+# stored independent mutants (patches) on top of the refactorings: same requirement, for the checks recorded as catching them
+if "--seeded" in sys.argv:
+    props.discard("--seeded")
+    seeds = []
+    for mp in sorted(glob.glob(os.path.join(HERE, "seeded", "*", "meta.json"))):
+        meta = json.load(open(mp))
+        pf = os.path.join(os.path.dirname(mp), "patch.diff")
+        for pr in meta.get("checks_that_fire", [])[:2]:
+            if props and pr not in props:
+                continue
+            seeds.append({"id": "seeded/" + meta["id"], "property": pr, "patch": pf, "edits": [{"file": x} for x in re.findall(r"^\+\+\+ b/(\S+)", open(pf).read(), re.M)]})
 
 
 jobs = []
